@@ -24,17 +24,30 @@ def _snap(E, h):
     return d
 
 
+SPECIAL = {
+    # class, axis names, concrete edges per axis (valid ranges), projection class map
+    "spherical": ("SphericalHistogram", ["r", "theta", "phi"], [[0.0, 1.0, 2.0], [0.0, 1.5, 3.0], [0.0, 3.0, 6.0]], {(1, 2): "SphericalSurfaceHistogram", (0,): "RadialHistogram"}),
+    "cylindrical": ("CylindricalHistogram", ["rho", "phi", "z"], [[0.0, 1.0, 2.0], [0.0, 3.0, 6.0], [-1.0, 0.0, 1.0]],
+                    {(0,): "RadialHistogram", (1,): "AzimuthalHistogram", (0, 1): "PolarHistogram", (1, 2): "CylindricalSurfaceHistogram"}),
+}
+
+
 def _mk(E, p, x):
     np = E.np
     nd = E.mod("physt.histogram_nd")
     shape = p["shape"]
     D = len(shape)
+    if p.get("special"):
+        sp = E.mod("physt.special_histograms")
+        cname, _, edges, _ = SPECIAL[p["special"]]
+        return getattr(sp, cname)([np.asarray(e) for e in edges], np.asarray(nested(x["f"], shape), dtype=float), errors2=np.asarray(nested(x["q"], shape), dtype=float), name="parent")
     cls = nd.Histogram2D if D == 2 else nd.HistogramND
     dt = p.get("dtype") or (int if p["kind"] == "int" else float)
     f = np.asarray(nested(x["f"], shape), dtype=dt)
     e2 = np.asarray(nested(x["q"], shape), dtype=dt)
     kw = {"missed": x["m"]} if "m" in x else {}
-    return cls([np.asarray(x["e"][k]) for k in range(D)], f, errors2=e2, axis_names=NAMES[:D], name="parent", **kw)
+    names = p.get("names") or NAMES[:D]
+    return cls([np.asarray(x["e"][k]) for k in range(D)], f, errors2=e2, axis_names=names, name="parent", **kw)
 
 
 @register
@@ -56,6 +69,13 @@ class C09Projection(Harness):
                             continue
                         yield (f"proj-S{'x'.join(map(str, shape))}-{by}-{''.join(map(str, axes))}",
                                dict(shape=list(shape), axes=list(axes), by=by, kind="real" if (sum(axes) % 2) else "int", chain=None))
+        # coordinate-transformed parents: axis subsets without a dedicated special class fall back to the ordinary 1D / 2D classes
+        for special in ("spherical", "cylindrical"):
+            for axes in ((0,), (1,), (2,), (0, 1), (0, 2), (1, 2)):
+                yield f"proj-{special}-{''.join(map(str, axes))}", dict(shape=[2, 2, 2], axes=list(axes), by="name" if len(axes) == 1 else "index", kind="real", chain=None, special=special)
+        # partially named axes: an unnamed axis in front of the requested name
+        yield "proj-S2x1x2-names-None-y-z", dict(shape=[2, 1, 2], axes=[2], by="name", kind="int", chain=None, names=[None, "y", "z"])
+        yield "proj-S2x1x2-names-empty-y-z-pair", dict(shape=[2, 1, 2], axes=[1, 2], by="name", kind="int", chain=None, names=["", "y", "z"])
         # narrow integer parents: marginal sums may exceed the parent's own type (numpy's sum widens to int64)
         for dt in ("int16", "int32"):
             yield f"proj-S2x3-{dt}-0", dict(shape=[2, 3], axes=[0], by="index", kind="int", chain=None, dtype=dt)
@@ -77,13 +97,14 @@ class C09Projection(Harness):
                 n *= s_
             return {"f": cx.ints("f", n, 0, lim), "q": cx.ints("q", n, 0, lim), "e": [declare_edges(cx, f"e{k}_", shape[k]) for k in range(len(shape))]}
         x = {"f": declare_cells(cx, "f", shape, p["kind"]), "q": declare_cells(cx, "q", shape, p["kind"]),
-             "e": [declare_edges(cx, f"e{k}_", shape[k]) for k in range(len(shape))]}
+             "e": [declare_edges(cx, f"e{k}_", shape[k]) for k in range(len(shape))] if not p.get("special") else [list(e) for e in SPECIAL[p["special"]][2]]}
         return x
 
     def drive(self, E, p, x):
         h = _mk(E, p, x)
         before = _snap(E, h)
-        axes = [NAMES[a] for a in p["axes"]] if p["by"] == "name" else list(p["axes"])
+        names = SPECIAL[p["special"]][1] if p.get("special") else (p.get("names") or NAMES)
+        axes = [names[a] for a in p["axes"]] if p["by"] == "name" else list(p["axes"])
         pr = E.attempt(h.projection, *axes)
         if isinstance(pr, Raised):
             return {"raised": pr}
@@ -113,8 +134,12 @@ class C09Projection(Harness):
 
         yield "shape", pr["shape"] == kshape
         yield "ndim", pr["ndim"] == len(kept)
-        yield "class", pr["cls"] == {1: "Histogram1D", 2: "Histogram2D"}.get(len(kept), "HistogramND")
-        yield "axis_names", pr["axis_names"] == [NAMES[k] for k in kept]
+        names = SPECIAL[p["special"]][1] if p.get("special") else (p.get("names") or NAMES)
+        expected_cls = {1: "Histogram1D", 2: "Histogram2D"}.get(len(kept), "HistogramND")
+        if p.get("special"):
+            expected_cls = SPECIAL[p["special"]][3].get(tuple(kept), expected_cls)
+        yield "class", pr["cls"] == expected_cls
+        yield "axis_names", pr["axis_names"] == [names[k] for k in kept]
         yield "name", pr["name"] == "parent"
         if pr["shape"] != kshape:
             return
